@@ -46,4 +46,6 @@ class RSTHandler:
         :param snapshot: The memory snapshot.
         :param address: The address of an instruction.
         """
-        return self.processors.get(snapshot[address])
+        rst_args = self.processors.get(snapshot[address])
+        if rst_args and address + sum(s[0] for s in rst_args[1]) < len(snapshot):
+            return rst_args
